@@ -13,6 +13,7 @@ TITLE = "publications file: strict structure, exact signed range, trust only via
 def run(prog, chk):
     der_whole_value(prog, chk)
     signer_certificate_table(prog, chk)
+    lookup_by_string_table(prog, chk)
     _run(prog, chk)
 
 
@@ -427,3 +428,59 @@ def _run(prog, chk):
         w = must_pass(fcert, {getc[0][0]}, g_true("KSI_OctetString_equals", arg_prov(r"KSI_CertificateRecord_getCertId\(", "^param:%s$" % fcert.params[1]["n"])))
         okid = w is None and provenance(fcert, getc[0][0], getc[0][1], getc[0][2]["a"][0]) == provenance(fcert, eq[0][0], eq[0][1], eq[0][2]["a"][0]).replace("KSI_CertificateRecord_getCertId(", "").split(",_)@1")[0]
     chk.ob("C18.lookup", "certificateById", okid, "a certificate is returned only for the record whose id equals the given id (KSI_OctetString_equals)", loc=fcert.loc(), fn=fcert)
+
+
+def lookup_by_string_table(prog, chk):
+    """Lookup by publication string: the string is decoded (gated by C17), the record with that time is looked up, and it is handed out
+    only when its imprint equals the string's; a record with another imprint at that time is an error, no record at that time is
+    'not found' without an error.  Decision table."""
+    from ksirules.interp import TOP, Interp, Ptr, succeed_model
+    from ksirules.model import AnalysisBroken, lvalue_key, strip
+    chk.rule("C18.bystring", "lookup by publication string: the record of that time, only with the identical imprint (decision table)", floor=4)
+    fn = prog.fn("KSI_PublicationsFile_getPublicationDataByPublicationString", "publicationsfile.c")
+    fp, sp, op = [p["n"] for p in fn.params]
+    for decode_ok, found, same in ((1, 1, 1), (1, 1, 0), (1, 0, 0), (0, 0, 0)):
+        def out(idx, val, status=0):
+            def f(I, p, node, args):
+                if status:
+                    return status
+                I.write(p, lvalue_key(strip(node["a"][idx])["e"], I.fn), val)
+                return 0
+            return f
+        asked = {}
+
+        def bytime(I, p, node, args):
+            asked["time"] = args[1]
+            I.write(p, lvalue_key(strip(node["a"][2])["e"], I.fn), Ptr("REC") if found else 0)
+            return 0
+
+        def getimprint(I, p, node, args):
+            I.write(p, lvalue_key(strip(node["a"][1])["e"], I.fn), Ptr("WANTIMPRINT") if args[0] == Ptr("DECODED") else Ptr("RECIMPRINT"))
+            return 0
+
+        def equals(I, p, node, args):
+            if sorted(map(str, args[:2])) != sorted(map(str, [Ptr("WANTIMPRINT"), Ptr("RECIMPRINT")])):
+                return TOP
+            return 1 if same else 0
+        ov = {"KSI_PublicationData_fromBase32": out(2, Ptr("DECODED"), 0 if decode_ok else 0x101), "KSI_PublicationData_getImprint": getimprint,
+              "KSI_PublicationData_getTime": out(1, Ptr("WANTTIME")), "KSI_PublicationsFile_getPublicationDataByTime": bytime,
+              "KSI_PublicationRecord_getPublishedData": out(1, Ptr("RECDATA")), "KSI_DataHash_equals": equals, "KSI_PublicationRecord_ref": lambda I, p, n, a: a[0],
+              "KSI_PublicationData_free": lambda I, p, n, a: TOP, "KSI_PublicationRecord_free": lambda I, p, n, a: TOP}
+        inputs = {fp: Ptr("PF"), sp: Ptr("STRING"), op: Ptr("OUT"), "PF->ctx": Ptr("ctx")}
+        I = Interp(fn, inputs=inputs, call_model=succeed_model(prog, ov), on_unknown="stop", prog=prog)
+        paths = I.run()
+        chk.paths += len(paths)
+        inst = "by string[%s, %s]" % ("string decodes" if decode_ok else "string refused", ("record at that time with %s imprint" % ("the same" if same else "another")) if found else "no record at that time")
+        if len(paths) != 1 or paths[0].undetermined or paths[0].ret is TOP:
+            raise AnalysisBroken("getPublicationDataByPublicationString: evaluation not determined for %s: %s" % (inst, [q.undetermined[:1] for q in paths]))
+        q = paths[0]
+        outv = [t[2] for t in q.stores("*" + op)] + [t[2] for t in q.stores("OUT")]
+        handed = [v for v in outv if v not in (0, None)]
+        if decode_ok and found and same:
+            ok = q.ret == 0 and handed[-1:] == [Ptr("REC")] and asked.get("time") == Ptr("WANTTIME")
+        elif decode_ok and not found:
+            ok = q.ret == 0 and not handed and asked.get("time") == Ptr("WANTTIME")
+        else:
+            ok = q.ret != 0 and not handed
+        chk.ob("C18.bystring", inst, ok, "source: status %s, record handed out %s, looked up by %s" % (hex(q.ret) if isinstance(q.ret, int) else q.ret, handed, asked.get("time")),
+               loc=fn.loc(), fn=fn)
